@@ -23,8 +23,7 @@ THEOREMS = [
     'CpProofs.C14.C14_delete_dead',
     'CpProofs.C14.C14_delete_full_false_before_fix',
     'CpProofs.C14.C14_regenerate_dead',
-    'CpProofs.C14.C14_damaged_full_false',
-    'CpProofs.C14.C14_sweep_abort_witness',
+    'CpProofs.C14.C14_damaged_full_holds',
     'CpProofs.C14.C14_damaged_partial',
     'CpProofs.C14.C14_except_clause_table',
     'CpProofs.C14.run_inv',
@@ -72,39 +71,66 @@ TRUSTED_BASE = [
     'truncation offset of real session pickles (all protocols) and of the files the histories save',
     'os.urandom never repeats a 160-bit value (the id source is injective); collisions with live ids are injected '
     'deliberately to exercise the retry loop',
-    'filelock.FileLock, the file system (open/unlink/listdir), http.cookies parsing of the request cookie',
+    'filelock.FileLock, the file system (open/unlink/listdir)',
+    'http.cookies: what the value text of ONE cookie pair means (unquoting) is taken from the library; which of '
+    'several pairs is presented is the model\'s presentedOf, compared with Session.originalid on every request',
+    'MemcachedSession is driven over an in-memory stand-in for the memcache module (get/set/delete, values pickled, '
+    'an entry is no longer returned once its absolute expiry time is reached): memcached itself is a parameter',
 ]
 ASSUMPTIONS = [
-    'requests are sequential (locking is C13); the sweep runs between requests',
+    'requests are sequential, or two of them overlap on different sessions (same-session concurrency is C13); '
+    'the sweep runs between requests',
     'the clock is monotone; one tick = one minute, expiry arithmetic is exact on ticks',
 ]
 LEVEL = 'proof'
 TECHNIQUE = ('Lean 4 proof: invariants over every store state and induction over the operation list (all histories, '
-             'cookies, handler scripts, clock positions, both backends), pickle as a parameter with a measured '
-             'contract; model tied to cherrypy.lib.sessions by a differential history run through in-process WSGI')
+             'cookies, handler scripts, clock positions, three backends; the self-expiring store by refinement to the '
+             'RAM store), pickle as a parameter with a measured contract; model tied to cherrypy.lib.sessions by a '
+             'differential history run through in-process WSGI')
 LEVEL_TEXT = ('Proved in Lean for every store state / history / cookie / handler script: the response id is the presented one '
               'only if the store held it, otherwise drawn from the id source and not live (no fixation; unknown ids are '
-              'replaced given the client cannot guess a urandom value); the regeneration loop ends for an injective source; '
+              'replaced given the client cannot guess a urandom value; with several session cookies in one header the last '
+              'pair under the configured name is the presented one and other names never matter; the issued id does not '
+              'depend on what was presented; two overlapping requests presenting the same unknown id get different ids); '
+              'the regeneration loop ends for an injective source; '
               'a saved record survives every history of other traffic, sweeps and clock advances up to its expiry and is '
-              'what the next request presenting the id reads (RAM: strictly before expiry, the one-tick boundary is a '
-              'lemma); once nothing returnable is stored under an id (expired, deleted, regenerated, torn) it stays so '
-              'through every history and requests presenting it read nothing until one of them writes; delete() and '
-              'regenerate() leave nothing under the old id; both sweeps remove exactly the expired entries; relative to '
+              'what the next request presenting the id reads (RAM: strictly before expiry; the two boundary inequalities '
+              'are stated side by side); the expiry slides with every request that touches the session and a request that '
+              'does not touch it stores nothing; regenerate() carries the data to the new id; once nothing returnable is '
+              'stored under an id (expired, deleted, regenerated, torn) it stays so '
+              'through every history and requests presenting it read nothing until one of them writes (every method of '
+              'the dict interface included); an expired but unswept id is adopted with an empty session (never its data; '
+              '"never adopted" is proved false for RAM/file and true for the self-expiring store); delete() and '
+              'regenerate() leave nothing under the old id; both sweeps remove exactly the expired entries; the cleanup '
+              'Monitor is started once per class with the first non-zero clean_freq; the response cookie carries the '
+              'configured attributes with max-age/expires equal to the stored expiry, expire() dates it a year back and '
+              'leaves the store alone; the memcached backend is the RAM store swept before every operation, so the '
+              'history theorems hold for it; relative to '
               'the measured pickle contract every truncation of a saved file is an absent session, no request is answered '
-              '500 and the sweep runs to the end.  Partial: for damaged files that are not truncations the statement is '
-              'proved false (F14d: other exception classes propagate) and proved under the hypothesis that excludes them; '
+              '500 and the sweep runs to the end.  Every other damaged file (garbage on which pickle.load raises any class, a pickle of '
+              'another shape) is an absent session as well since the F14d repair a245f5d (C14_damaged_full_holds).  '
+              'Partial: overlapping requests are a theorem about one overlap, not part of the history inductions; '
               'the statement about delete() is proved false for the code before fix 8042c0e and true after.')
 LEVEL_NOTE = ('Trusted: Lean kernel (axioms propext, Classical.choice, Quot.sound only), the hand model '
               'lean/CpModel/SessionStore.lean as validated by the differential run (status, response id numbered by '
-              'id-source draw, handler reads, cookie expiry flag and the complete store listing with expiry ticks after '
-              'every operation), the harness.  pickle, os.urandom, filelock and the file system are parameters; locks and '
-              'the Monitor thread are out of scope (C13, C20).')
-RULE = ('random histories (<= 40 operations counting handler statements) over 1-4 clients x {RAM, file} x timeout '
-        '{1,2,3} ticks: requests with no / own / stale / foreign / unknown / malformed (lock-file name, upper-cased, '
-        'path alias, prefix, empty, directory-escaping) cookie whose handler reads, writes picklable values, deletes '
-        'keys, clears, regenerates, deletes or expires the session (some responses streamed, so that save runs at on_end_request); clock advances aimed at expiry-1/expiry/expiry+1; '
-        'synchronous sweeps; file damage (truncation offset, zero length, garbage); scripted id-source collisions '
-        'with live ids; plus every truncation offset of real saved files with the torn file between two expired '
-        'sessions, plus a systematic small scope: every sequence of 3 (quick) / 4 (thorough) operations over a 10/11-symbol '
-        'alphabet on both backends.  Non-trivial = at least two requests and at least one adopted id; distinct = distinct '
-        '(backend, timeout, operation list, collision plan)')
+              'id-source draw, which cookie was presented, handler observations through the whole dict interface, len(), '
+              'the response cookie\'s attributes, the Monitors started, and the complete store listing with expiry ticks '
+              'after every operation), the harness.  pickle, os.urandom, filelock, the file system, http.cookies\' value '
+              'syntax and memcached are parameters; locks and the Monitor thread are out of scope (C13, C20).')
+RULE = ('random histories (<= 40 operations counting handler statements) over 1-4 clients x {RAM, file, memcached stand-in} '
+        'x timeout {1,2,3,default 60} ticks x cookie configuration (name, path, path_header, domain, secure, httponly, '
+        'persistent) x storage_class / deprecated storage_type spelling x clean_freq x debug x locking '
+        '(implicit / early / explicit) x tools.encode on/off: requests with no / own / stale / foreign / unknown / malformed '
+        '(lock-file name, upper-cased, path alias, trailing slash or dot, prefix, empty, directory-escaping) / quoted '
+        'cookie or several pairs in one header (duplicates, decoy names, the default name next to a configured one, '
+        'separator whitespace) whose handler reads (items / keys+getitem / values), writes picklable values, uses '
+        'get / [] / in / setdefault / update / pop with and without default / del, clears, calls len(), regenerates (through the '
+        'tool or directly), deletes or expires the session, raises, redirects, streams or returns an iterator; two overlapping '
+        'requests (same unknown id, none, a live id on one side); clock advances aimed at expiry-1/expiry/expiry+1; '
+        'sweeps through the callback the code registered with the (recorded) Monitor; file damage (truncation offset, zero '
+        'length, garbage); scripted id-source collisions with live ids; plus every truncation offset of real saved files with '
+        'the torn file between two expired sessions, targeted overlap scenarios, direct sequences of load() calls over the '
+        'three classes for the Monitor logic, a metamorphic re-run with other unknown-cookie texts (issued ids must not '
+        'change), plus a systematic small scope: every sequence of 3 (quick) / 4 (thorough) operations over a 10/11-symbol '
+        'alphabet on the three backends.  Non-trivial = at least two requests and at least one adopted id; distinct = distinct '
+        '(backend, timeout, operation list, collision plan, cookie configuration)')
